@@ -124,6 +124,9 @@ func (l *library) drawModel(r *rng.R) drawnModel {
 		if r.Chance(1, 5) {
 			declareOutputs(r, e)
 		}
+		if r.Chance(1, 5) {
+			corpus.NameNodes(r, e)
+		}
 		return fromEntry(e)
 	case x < 17 || len(l.samples) == 0:
 		e := corpus.DrawDAG(r)
@@ -132,6 +135,9 @@ func (l *library) drawModel(r *rng.R) drawnModel {
 		}
 		if r.Chance(1, 5) {
 			declareOutputs(r, e)
+		}
+		if r.Chance(1, 3) {
+			corpus.NameNodes(r, e)
 		}
 		return fromEntry(e)
 	default:
@@ -283,7 +289,9 @@ func drawTask(r *rng.R, models []drawnModel, n int, allowLoad bool) Task {
 			ref := prev[r.Intn(len(prev))]
 			t.Calls = append(t.Calls, Call{Kind: KRefill, Model: mi, Ref: ref, Inputs: refillOf(r, t.Calls, ref, set)})
 		case k < 60 && len(prev) > 0:
-			t.Calls = append(t.Calls, Call{Kind: KFeedback, Model: mi, Inputs: set(), Ref: prev[r.Intn(len(prev))]})
+			// (a third of these callers do not pick the outputs apart: they merge the whole result map of the earlier call
+			// into the next call's input map, so tensors also arrive under the names of the model's OUTPUTS)
+			t.Calls = append(t.Calls, Call{Kind: KFeedback, Model: mi, Inputs: set(), Ref: prev[r.Intn(len(prev))], CarryAll: r.Chance(1, 3)})
 		case k < 74:
 			bad, note := corrupt(r, dm.inputSets[r.Intn(len(dm.inputSets))])
 			t.Calls = append(t.Calls, Call{Kind: KBad, Model: mi, Inputs: bad, Ref: -1, Note: note})
